@@ -109,6 +109,7 @@ type pathCtx struct {
 	isConcrete  bool
 	globalCells map[*value]string
 	locks       map[*value]bool
+	uniq        map[int32]uniqRes
 }
 
 type obsRec struct {
@@ -456,4 +457,58 @@ func debugf(format string, args ...interface{}) {
 	if os.Getenv("SYMGO_DEBUG") != "" {
 		fmt.Fprintf(os.Stderr, format, args...)
 	}
+}
+
+// uniqueValue reports whether t has exactly one value under the current path
+// condition (two solver queries); used to print forced values concretely.
+func (c *pathCtx) uniqueValue(t *Term) (uint64, bool) {
+	if t.isConst() {
+		if t.op == oTrue {
+			return 1, true
+		}
+		return t.k, true
+	}
+	if t.op == oAtom {
+		return 0, false
+	}
+	if v, ok := c.uniq[t.id]; ok {
+		return v.v, v.ok
+	}
+	res := uniqRes{}
+	if t.w == 0 {
+		rt := c.sol.check(t, false)
+		rf := c.sol.check(t, true)
+		switch {
+		case rt == resSat && rf == resUnsat:
+			res = uniqRes{1, true}
+		case rt == resUnsat && rf == resSat:
+			res = uniqRes{0, true}
+		}
+	} else if c.sol.check(nil, false) == resSat {
+		c.sol.define(t)
+		m := c.sol.values([]*Term{t})
+		if m != nil {
+			var v uint64
+			for _, x := range m {
+				v = x
+			}
+			eq := c.tt.Cmp(oEq, t, c.tt.Const(v, t.w))
+			if c.sol.check(eq, true) == resUnsat {
+				res = uniqRes{v, true}
+			}
+		}
+	}
+	if c.uniq == nil {
+		c.uniq = map[int32]uniqRes{}
+	}
+	// only positive answers stay valid as the path condition grows
+	if res.ok {
+		c.uniq[t.id] = res
+	}
+	return res.v, res.ok
+}
+
+type uniqRes struct {
+	v  uint64
+	ok bool
 }
